@@ -90,6 +90,21 @@ ExpectedGroup(S, g) ==
     entries |-> [ i \in DOMAIN GroupVarsOf(S, g) |-> [ binding |-> GroupVarsOf(S, g)[i].binding, vis |-> Vis(S, GroupVarsOf(S, g)[i].name), ty |-> B!GenEntryTy(GroupVarsOf(S, g)[i]) ] ],
     layout_label |-> "LayoutDescriptor" \o g, group_label |-> "BindGroup" \o g, set_index |-> g ]
 
+(* ---- constants, compute module, vertex impls, pipeline layout ---- *)
+ExpectedOverrideFields(S) == [ i \in DOMAIN S.overrides |-> [ name |-> S.overrides[i].name, ty |-> C!FieldType(S.overrides[i]) ] ]
+ExpectedCompute(S) ==
+  [ i \in DOMAIN EntriesOfStage(S, "compute") |->
+      [ wg_const |-> EntriesOfStage(S, "compute")[i].upper \o "_WORKGROUP_SIZE",
+        ctor |-> "create_" \o EntriesOfStage(S, "compute")[i].name \o "_pipeline",
+        label |-> "Compute Pipeline " \o EntriesOfStage(S, "compute")[i].name,
+        entry |-> EntriesOfStage(S, "compute")[i].name ] ]
+ExpectedEntryConsts(S) == [ i \in DOMAIN S.entries |-> [ const |-> "ENTRY_" \o S.entries[i].upper, value |-> S.entries[i].name ] ]
+ExpectedVertexImpl(S, n) ==
+  LET ms == E!LocMembers(S, n) IN
+  [ name |-> n, count |-> "[wgpu::VertexAttribute;" \o ToString(Len(ms)) \o "]",
+    attrs |-> [ i \in DOMAIN ms |-> [ format |-> E!VertexFormatOf(ms[i].ty), location |-> ToString(ms[i].io.n), offset_struct |-> n, offset_field |-> ms[i].name ] ] ]
+ExpectedPipelineBgls(S, order) == [ i \in DOMAIN order |-> "bind_groups::BindGroup" \o order[i] \o "::get_bind_group_layout" ]
+
 (* ---- entry helpers ---- *)
 VertexEntryParams(S, e) ==
   [ i \in DOMAIN E!StructParams(e) |-> StructDef(S, E!StructParams(e)[i].ty).snake ] \o (IF S.overrides # << >> THEN << "overrides" >> ELSE << >>)
